@@ -9,6 +9,8 @@ from . import cfgmachine
 
 def run(tier, seed):
     out = cfgmachine.run_machine("C06", [], ["C06_Unchanged"], tier, seed)
+    # second instance: the textual / numeric field classes inside a configuration
+    out = cfgmachine.merge(out, cfgmachine.run_machine("C06", [], ["C06_Unchanged"], tier, seed + 7, schema="SchemaB"))
     try:
         from . import loadfail
     except ImportError:
